@@ -81,6 +81,9 @@ type c01Cfg struct {
 //go:noinline
 func c01worker(fn func()) { fn() }
 
+//go:noinline
+func c01sender(fn func()) { fn() }
+
 // runLedgerWorkload drives all-pairs traffic on a stack and applies the C01 oracle (also used by C14).
 func runLedgerWorkload(r *ev.Run, st *Stack, g *rng.R, caseID string, cfg c01Cfg, prop string) (delivered int64) {
 	led := newLedger()
@@ -208,7 +211,7 @@ func runLedgerWorkload(r *ev.Run, st *Stack, g *rng.R, caseID string, cfg c01Cfg
 			swg.Add(1)
 			go func() {
 				defer swg.Done()
-				c01worker(func() {
+				c01sender(func() {
 					for rep := 0; rep < cfg.repeats; rep++ {
 						for li, L := range lengths {
 							if (li+rep)%cfg.senders != w {
@@ -255,7 +258,7 @@ func runLedgerWorkload(r *ev.Run, st *Stack, g *rng.R, caseID string, cfg c01Cfg
 	}
 	sdone := make(chan struct{})
 	go func() { swg.Wait(); close(sdone) }()
-	if v, stacks := gor.WaitParked(sdone, "main.c01worker", 60*time.Second, time.Second); v != gor.Returned {
+	if v, stacks := gor.WaitParked(sdone, "main.c01sender", 120*time.Second, time.Second); v != gor.Returned {
 		if v == gor.Parked {
 			r.Count("senders_parked", 1)
 			r.Extra["parked_senders_"+st.Name] = stacks
